@@ -479,6 +479,36 @@ func GenMerge(t *rapid.T, ctx *Ctx, sc *Scenario, cfg CaseCfg, depth int, label 
 			for d := range src.Docs {
 				rev[len(rev)-1-d] = src.Docs[d]
 			}
+			what := "reversed documents of an earlier input"
+			has := map[string]bool{}
+			for _, f := range src.Exp.Fields {
+				has[f] = true
+			}
+			if has["a"] && has["b"] && !has["a,b"] && rapid.Bool().Draw(t, fmt.Sprintf("%s.%d:mergeNames", label, i)) {
+				// ... and with the fields "a" and "b" both renamed to "a,b": another field list that reads the same
+				// when its names are joined with commas
+				what = "documents of an earlier input with fields a and b renamed to \"a,b\""
+				rev = make(Batch, len(src.Docs))
+				for d := range src.Docs {
+					for _, f := range src.Docs[d].Fields {
+						g := f
+						if g.Name == "a" || g.Name == "b" {
+							g.Name = "a,b"
+							g.DV = false
+						}
+						g.Terms = append([]Term{}, f.Terms...)
+						for ti := range g.Terms {
+							g.Terms[ti].Locs = append([]Loc{}, f.Terms[ti].Locs...)
+							for li := range g.Terms[ti].Locs {
+								if n := g.Terms[ti].Locs[li].Field; n == "a" || n == "b" {
+									g.Terms[ti].Locs[li].Field = "a,b"
+								}
+							}
+						}
+						rev[d].Fields = append(rev[d].Fields, g)
+					}
+				}
+			}
 			if !contractValid(rev) {
 				rev = Batch{}
 			}
@@ -486,7 +516,7 @@ func GenMerge(t *rapid.T, ctx *Ctx, sc *Scenario, cfg CaseCfg, depth int, label 
 			if err != nil {
 				return nil, fmt.Errorf("building mirrored input: %v", err)
 			}
-			ins[i] = &SegCase{Seg: seg, Exp: Expect(rev, sc.Norm.F), Docs: rev, Mode: src.Mode, Desc: fmt.Sprintf("built(mode=%d){reversed documents of an earlier input: %s}", src.Mode, rev.String())}
+			ins[i] = &SegCase{Seg: seg, Exp: Expect(rev, sc.Norm.F), Docs: rev, Mode: src.Mode, Desc: fmt.Sprintf("built(mode=%d){%s: %s}", src.Mode, what, rev.String())}
 			batchLabels(rev, ins[i])
 			ins[i].label("mirrored-input")
 			if rapid.Bool().Draw(t, fmt.Sprintf("%s.%d:mirrorLoaded", label, i)) {
